@@ -423,9 +423,15 @@ def _compress_tiles(
             return (src_data_name, 0, y, x)
         return (src_data_name, s, y, x)
 
+    # image padding can add whole rows/columns of tiles that have no source
+    # block, those are compressed from an empty block (all fill value)
+    nby, nbx = (len(data.chunks[src_ydim + i]) for i in (0, 1))
+    empty_shape = (0, 0, data.shape[2]) if (data.ndim == 3 and src_ydim == 0) else (0, 0)
+    empty = np.zeros(empty_shape, dtype=data.dtype)
+
     dsk: Any = {}
     for i, (s, y, x) in enumerate(meta.tidx(sample_idx)):
-        block = block_name(s, y, x)
+        block = block_name(s, y, x) if (y < nby and x < nbx) else empty
         dsk[name, i] = (_compress_cog_tile, encoder, block, quote((scale_idx, s, y, x)))
 
     nparts = len(dsk)
